@@ -90,8 +90,9 @@ def core_check(ctx, lib, keys, counts, pollute, fr, label, as_group=()):
     if declared and max(r[0] for r in declared) > min(r[1] for r in declared) and not pollute:
         ctx.event('disjoint-ranges(C06)')
         return
+    given = dict(mapping)
     try:
-        est = lib.Estimate(mapping, 'thermochem')
+        est = lib.Estimate(given, 'thermochem')
     except m['GMDE'] as e:
         got = sorted(str(g) for g in e.groups)
         if not pollute:
@@ -109,6 +110,11 @@ def core_check(ctx, lib, keys, counts, pollute, fr, label, as_group=()):
         ctx.fail('partial-sum-instead-of-missing-data-error', '[%s] Estimate returned an object although %s have no data'
                  % (label, pollute))
         return
+    # an estimate is a value: what the caller does with the mapping object afterwards (re-use for the next molecule, clear)
+    # does not reach into it
+    for k in list(given)[:-1] or list(given):
+        given[k] = given[k] * 3 + 1
+    given.pop(next(iter(given)))
     groups = [lib[k]['thermochem'] for k in keys]
     rs = [eff_range(g) for g in groups]
     rs = [r for r in rs if r is not None]
